@@ -12,8 +12,8 @@ import (
 
 type fakeStorage struct{ applied int }
 
-func (f *fakeStorage) Get(key []byte) ([]byte, error)         { return nil, ErrKeyNotFound }
-func (f *fakeStorage) ApplyBatch(entries []*wal.Entry) error  { f.applied += len(entries); return nil }
+func (f *fakeStorage) Get(key []byte) ([]byte, error)          { return nil, ErrKeyNotFound }
+func (f *fakeStorage) ApplyBatch(entries []*wal.Entry) error   { f.applied += len(entries); return nil }
 func (f *fakeStorage) GetIterator() (iterator.Iterator, error) { return &emptyIterator{}, nil }
 func (f *fakeStorage) GetRangeIterator(s, e []byte) (iterator.Iterator, error) {
 	return &emptyIterator{}, nil
